@@ -559,6 +559,8 @@ def run(ck, F):
     # no accessor follows a pointer that may be null (a read through a null pointer is a read outside live objects)
     import borrow as _borrow
     _borrow.borrow(ck, F, 'C14', 'C19', {'no-unchecked-deref'})
+    # an unformatted write of the printer stays within the object it takes its bytes from
+    _borrow.borrow(ck, F, 'C18', 'C19', {'explicit-extent-writes'})
 
     # the pool chain after an allocation: nothing that was reachable is lost, everything new is reachable
     R7 = ck.rule('C19.chain-preserved', 'on every path of arena::allocate (and of the constructor) the chain mem -> previous -> ... '
